@@ -56,11 +56,12 @@ type ConnSpec struct {
 }
 
 type Step struct {
-	Op   string `json:"op"` // connect | send | stall | flood | close | stop | api | sleep | settle | dump
-	K    int    `json:"k,omitempty"`
-	Kind string `json:"kind,omitempty"` // send: connect badconnect ping pub ok ack bad mal disc ; api: terminate publish
-	N    int    `json:"n,omitempty"`    // repetition (amplification of the model's capacities)
-	Ms   int    `json:"ms,omitempty"`
+	Op     string `json:"op"` // connect | send | stall | flood | close | stop | api | sleep | settle | dump
+	K      int    `json:"k,omitempty"`
+	Kind   string `json:"kind,omitempty"`   // send: connect badconnect ping pub ok ack bad mal disc ; api: terminate publish
+	N      int    `json:"n,omitempty"`      // repetition (amplification of the model's capacities)
+	NoWait bool   `json:"nowait,omitempty"` // fillers: do not wait for answers
+	Ms     int    `json:"ms,omitempty"`
 }
 
 type StormSpec struct {
@@ -121,6 +122,12 @@ func note(f string, a ...interface{}) {
 	if len(res.Notes) < 200 {
 		res.Notes = append(res.Notes, fmt.Sprintf(f, a...))
 	}
+	resMu.Unlock()
+}
+
+func setStat(k string, v interface{}) {
+	resMu.Lock()
+	res.Stats[k] = v
 	resMu.Unlock()
 }
 
@@ -406,7 +413,7 @@ func countHook(rec *inproc.Recorder, h string) int {
 
 // afterStop evaluates the Stop clauses of C15.
 func (bn *bench) afterStop(sc *Scenario, label string) {
-	res.Stats["stop_ms"] = bn.stopDur.Milliseconds()
+	setStat("stop_ms", bn.stopDur.Milliseconds())
 	gs, raw := settleGoroutines(1500 * time.Millisecond)
 	cause := causes(gs)
 	if bn.stopErr != nil {
@@ -641,7 +648,7 @@ func runScript(sc *Scenario) {
 				case "ping":
 					r := p.expect("ping")
 					p.send(mw.Pingreq(), nil)
-					if !p.sentBad && !p.afterDisc { // after an error / DISCONNECT the model's peer just keeps sending
+					if !p.sentBad && !p.afterDisc && !st.NoWait { // after an error / DISCONNECT the model's peer just keeps sending
 						p.await(r, reqTO/4)
 					}
 				case "pub":
@@ -653,7 +660,7 @@ func runScript(sc *Scenario) {
 				case "ok":
 					r := p.expect("ok")
 					p.send(mw.Publish(p.topic(), 1, false, p.nextPid(), []byte("o")), nil)
-					if !p.sentBad && !p.afterDisc {
+					if !p.sentBad && !p.afterDisc && !st.NoWait {
 						p.await(r, reqTO/4)
 					}
 				case "ack":
@@ -717,7 +724,7 @@ func runScript(sc *Scenario) {
 				note("flood: own write blocked after %d publications", sentN)
 			}
 			p.wblocked = false
-			res.Stats["flood_sent"] = sentN
+			setStat("flood_sent", sentN)
 			time.Sleep(300 * time.Millisecond)
 		case "close":
 			if p == nil || p.weClosed {
@@ -1155,7 +1162,7 @@ func runStorm(sc *Scenario) {
 		}(a)
 	}
 	at := sc.Storm.StopLoMs + rng.Intn(sc.Storm.StopHiMs-sc.Storm.StopLoMs+1)
-	res.Stats["stop_at_ms"] = at
+	setStat("stop_at_ms", at)
 	time.Sleep(time.Duration(at) * time.Millisecond)
 	atomic.StoreInt32(&stopping, 1)
 	bn.stop(time.Duration(sc.StopMs) * time.Millisecond)
@@ -1166,9 +1173,9 @@ func runStorm(sc *Scenario) {
 		time.Sleep(100 * time.Millisecond) // a connection that was closing by itself: its `closed` event is microseconds away
 		_, _, reg = unfinishedConns(bn.rec)
 	}
-	res.Stats["conns_alive_at_stop_return_never_registered"] = len(un)
-	res.Stats["conns_alive_at_stop_return_registered_during_stop"] = len(late)
-	res.Stats["conns_alive_at_stop_return_registered_before_stop"] = len(reg)
+	setStat("conns_alive_at_stop_return_never_registered", len(un))
+	setStat("conns_alive_at_stop_return_registered_during_stop", len(late))
+	setStat("conns_alive_at_stop_return_registered_before_stop", len(reg))
 	gs, raw := settleGoroutines(1200 * time.Millisecond)
 	atomic.StoreInt32(&stopping, 2)
 	onlyConn := true
@@ -1198,7 +1205,7 @@ func runStorm(sc *Scenario) {
 			div(fmt.Sprintf("stop-hooks:unload=%d,onstop=%d", u, o), fmt.Sprintf("storm: Unload ran %d times, OnStop %d times", u, o), nil)
 		}
 	}
-	res.Stats["stop_ms"] = bn.stopDur.Milliseconds()
+	setStat("stop_ms", bn.stopDur.Milliseconds())
 	wg.Wait()
 	awg.Wait()
 	// every client has closed its socket now: nothing at all may be left
@@ -1288,7 +1295,7 @@ func main() {
 		sc.StopMs = 3000
 	}
 	res.ID = sc.ID
-	res.Stats["gomaxprocs"] = runtime.GOMAXPROCS(0)
+	setStat("gomaxprocs", runtime.GOMAXPROCS(0))
 	switch sc.Kind {
 	case "script":
 		runScript(sc)
